@@ -1,9 +1,231 @@
 import Driver.Util
-open Lean
+import NixModel.Pure.PropVals
+open Lean Nix.PropVals
 
+/-!
+Line protocol of the C10 model driver (one JSON array per line, state threaded through):
+
+  ["reset"]                              a fresh, empty section
+  ["create", name, input]                section.create_property(name, input)
+  ["set"|"extend", pkey, input]          section.props[pkey].values = input / .extend_values(input)
+  ["clear", pkey]                        .delete_values()
+  ["setattr", pkey, attr, attrval]       optional attribute setters
+  ["setodml", pkey, odml|null]
+  ["get", pkey]                          the whole property record
+  ["mksec", name, type]                  section.create_section
+  ["getitem", key] ["setitem", name, input|{"S": type}] ["delitem", pkey] ["contains", key]
+  ["len"] ["items"] ["reopen"]
+
+strings are arrays of code points; ints / float bit patterns are decimal strings.
+Answer: {"ok": result, "state": dump} or {"err": class, "state": dump}.
+-/
 namespace Driver.C10
 
-/-- stub: replaced when the model of C10 is built -/
-def main : IO Unit := pureLoop fun _ => bad "C10: model driver not built yet"
+abbrev Str := List Char
+
+def str? (j : Json) : Option Str :=
+  match j with
+  | .arr a => a.toList.mapM fun x => (jInt? x).map fun i => Char.ofNat i.toNat
+  | _ => none
+
+def strJ (s : Str) : Json := Json.arr (s.map fun c => Json.num (JsonNumber.fromNat c.toNat)).toArray
+
+def dec? (j : Json) : Option Int :=
+  match j with
+  | .str s => s.toInt?
+  | _ => jInt? j
+
+def decNat? (j : Json) : Option Nat := (dec? j).bind fun i => if i < 0 then none else some i.toNat
+
+def field? (j : Json) (k : String) : Option Json :=
+  match j.getObjVal? k with
+  | .ok v => some v
+  | _ => none
+
+def bool? (j : Json) : Option Bool := match j with | .bool b => some b | _ => none
+
+def dtype? (s : String) : Option DType :=
+  match s with
+  | "bool" => some .bool | "int8" => some .int8 | "int16" => some .int16 | "int32" => some .int32
+  | "int64" => some .int64 | "uint8" => some .uint8 | "uint16" => some .uint16
+  | "uint32" => some .uint32 | "uint64" => some .uint64 | "float32" => some .float32
+  | "float64" => some .float64 | "string" => some .string
+  | _ => none
+
+def dtypeS : DType → String
+  | .bool => "bool" | .int8 => "int8" | .int16 => "int16" | .int32 => "int32" | .int64 => "int64"
+  | .uint8 => "uint8" | .uint16 => "uint16" | .uint32 => "uint32" | .uint64 => "uint64"
+  | .float32 => "float32" | .float64 => "float64" | .string => "string"
+
+def pyval? (j : Json) : Option PyVal := do
+  let c ← field? j "c"
+  match c with
+  | .str "other" => some .other
+  | .str cls =>
+    let v ← field? j "v"
+    match cls with
+    | "bool" => (bool? v).map .pyBool
+    | "npBool" => (bool? v).map .npBool
+    | "int" => (dec? v).map .pyInt
+    | "npInt" => (dec? v).map .npInt
+    | "float" => (decNat? v).map .pyFloat
+    | "npFloat" => (decNat? v).map .npFloat
+    | "str" => (str? v).map .pyStr
+    | "npStr" => (str? v).map .npStr
+    | _ => none
+  | _ => none
+
+def cell? (j : Json) : Option Cell :=
+  match field? j "b", field? j "i", field? j "f", field? j "s" with
+  | some v, _, _, _ => (bool? v).map .b
+  | _, some v, _, _ => (dec? v).map .i
+  | _, _, some v, _ => (decNat? v).map .f
+  | _, _, _, some v => (str? v).map .s
+  | _, _, _, _ => none
+
+def cellJ : Cell → Json
+  | .b v => Json.mkObj [("b", Json.bool v)]
+  | .i v => Json.mkObj [("i", Json.str (toString v))]
+  | .f v => Json.mkObj [("f", Json.str (toString v))]
+  | .s v => Json.mkObj [("s", strJ v)]
+
+def typeArg? (s : String) : Option TypeArg :=
+  match s with
+  | "bool" => some .pyBool | "int" => some .pyInt | "float" => some .pyFloat | "str" => some .pyStr
+  | _ => if s.startsWith "np:" then (dtype? (s.drop 3).toString).map .np else none
+
+def input? (j : Json) : Option Input :=
+  if isNull j then some .none else
+  match field? j "scalar", field? j "list", field? j "nd", field? j "type" with
+  | some v, _, _, _ => (pyval? v).map .scalar
+  | _, some v, _, _ => ((jArr v).toList.mapM pyval?).map .list
+  | _, _, some v, _ => do
+    let dts ← field? v "dt"
+    let dt ← match dts with
+      | .str "ustr" => some ADType.ustr
+      | .str "other" => some ADType.other
+      | .str s => (dtype? s).map ADType.num
+      | _ => none
+    let shape ← (jArr (← field? v "shape")).toList.mapM fun x => (jInt? x).map Int.toNat
+    let data ← (jArr (← field? v "data")).toList.mapM cell?
+    some (.ndarray dt shape data)
+  | _, _, _, some (.str s) => (typeArg? s).map .type
+  | _, _, _, _ => none
+
+def key? (j : Json) : Option Key :=
+  match field? j "n", field? j "id" with
+  | some v, _ => (str? v).map .name
+  | _, some v => (decNat? v).map .id
+  | _, _ => none
+
+def pkey? (j : Json) : Option PKey :=
+  match field? j "i" with
+  | some v => (jInt? v).map .idx
+  | none => (key? j).map .key
+
+def attrName? (s : String) : Option AttrName :=
+  match s with
+  | "definition" => some .definition | "unit" => some .unit | "uncertainty" => some .uncertainty
+  | "reference" => some .reference | "dependency" => some .dependency
+  | "dependency_value" => some .dependencyValue | "value_origin" => some .valueOrigin
+  | _ => none
+
+def attrVal? (j : Json) : Option AttrVal :=
+  if isNull j then some .none else
+  match field? j "str", field? j "num", field? j "other" with
+  | some v, _, _ => (str? v).map .str
+  | _, some v, _ => do
+    let t ← bool? (← field? v "t")
+    let b ← decNat? (← field? v "bits")
+    some (.num t b)
+  | _, _, some v => (bool? v).map .other
+  | _, _, _ => none
+
+def odml? (s : String) : Option OdmlType :=
+  match s with
+  | "boolean" => some .boolean | "int" => some .int | "float" => some .float
+  | "string" => some .string | "text" => some .text | "url" => some .url
+  | "person" => some .person | "datetime" => some .datetime | "date" => some .date
+  | "time" => some .time
+  | _ => none
+
+def odmlS : OdmlType → String
+  | .boolean => "boolean" | .int => "int" | .float => "float" | .string => "string"
+  | .text => "text" | .url => "url" | .person => "person" | .datetime => "datetime"
+  | .date => "date" | .time => "time"
+
+def optStrJ : Option Str → Json
+  | some s => strJ s
+  | none => Json.null
+
+def propJ (p : PropRec) : Json :=
+  Json.mkObj [
+    ("name", strJ p.name), ("id", Json.num (JsonNumber.fromNat p.id)), ("dtype", Json.str (dtypeS p.dtype)),
+    ("vals", Json.arr (p.vals.map cellJ).toArray),
+    ("attrs", Json.mkObj [
+      ("definition", optStrJ p.attrs.definition), ("unit", optStrJ p.attrs.unit),
+      ("uncertainty", match p.attrs.uncertainty with | some b => Json.str (toString b) | none => Json.null),
+      ("reference", optStrJ p.attrs.reference), ("dependency", optStrJ p.attrs.dependency),
+      ("dependency_value", optStrJ p.attrs.dependencyValue),
+      ("value_origin", optStrJ p.attrs.valueOrigin),
+      ("odml_type", match p.attrs.odmlType with | some o => Json.str (odmlS o) | none => Json.null)])]
+
+def secJ (s : SecRec) : Json :=
+  Json.mkObj [("name", strJ s.name), ("id", Json.num (JsonNumber.fromNat s.id))]
+
+def stateJ (st : State) : Json :=
+  Json.mkObj [("props", Json.arr (st.props.map propJ).toArray),
+              ("secs", Json.arr (st.secs.map secJ).toArray)]
+
+def resJ : Res → Json
+  | .unit => Json.null
+  | .prop p => propJ p
+  | .item (.section s) => Json.mkObj [("section", secJ s)]
+  | .item (.scalar c) => Json.mkObj [("scalar", cellJ c)]
+  | .item (.values cs) => Json.mkObj [("values", Json.arr (cs.map cellJ).toArray)]
+  | .bool b => Json.bool b
+  | .nat n => Json.num (JsonNumber.fromNat n)
+  | .items l => Json.arr (l.map fun (n, k) =>
+      Json.arr #[strJ n, Json.str (match k with | .prop => "prop" | .sec => "sec")]).toArray
+
+def op? (j : Json) : Option Op :=
+  match (jArr j).toList with
+  | [.str "create", n, i] => do some (.create (← str? n) (← input? i))
+  | [.str "set", k, i] => do some (.set (← pkey? k) (← input? i))
+  | [.str "extend", k, i] => do some (.extend (← pkey? k) (← input? i))
+  | [.str "clear", k] => do some (.clear (← pkey? k))
+  | [.str "setattr", k, .str a, v] => do some (.setAttr (← pkey? k) (← attrName? a) (← attrVal? v))
+  | [.str "setodml", k, o] =>
+    match o with
+    | .str s => do some (.setOdml (← pkey? k) (some (← odml? s)))
+    | _ => do some (.setOdml (← pkey? k) none)
+  | [.str "get", k] => do some (.get (← pkey? k))
+  | [.str "mksec", n, t] => do some (.mksec (← str? n) (← str? t))
+  | [.str "getitem", k] => do some (.getitem (← key? k))
+  | [.str "setitem", n, v] =>
+    match field? v "S" with
+    | some t => do some (.setitem (← str? n) (.S (← str? t)))
+    | none => do some (.setitem (← str? n) (.val (← input? v)))
+  | [.str "delitem", k] => do some (.delitem (← pkey? k))
+  | [.str "contains", k] => do some (.contains (← key? k))
+  | [.str "len"] => some .len
+  | [.str "items"] => some .items
+  | [.str "reopen"] => some .reopen
+  | _ => none
+
+def handle (st : State) (j : Json) : State × Json :=
+  match (jArr j).toList with
+  | [.str "reset"] => (State.init, Json.mkObj [("ok", Json.null), ("state", stateJ State.init)])
+  | _ =>
+    match op? j with
+    | none => (st, bad "C10: malformed operation")
+    | some op =>
+      if !op.WF then (st, bad "C10: ill-formed array input") else
+      let (st', out) := step st op
+      match out with
+      | .ok r => (st', Json.mkObj [("ok", resJ r), ("state", stateJ st')])
+      | .error e => (st', Json.mkObj [("err", Json.str e.toString), ("state", stateJ st')])
+
+def main : IO Unit := loop State.init handle
 
 end Driver.C10
